@@ -42,12 +42,23 @@ class Mir:
         self.by_last = {}
         self.closures = {}
         self.closures_multi = {}
+        self.allocs = {}
+        self._alloc = None
         self.load(path)
 
     def load(self, path):
         cur = None; blk = None
         for raw in open(path):
             line = short(raw.rstrip('\n'))
+            if cur is None and getattr(self, '_alloc', None) is not None:
+                am = re.match(r'^\s+0x[0-9a-f]+ │ ((?:[0-9a-f_]{2} ?)+)', line)
+                if am:
+                    self.allocs[self._alloc][1].extend(am.group(1).split()); continue
+                if line.strip() == '}': self._alloc = None; continue
+            if cur is None:
+                am = re.match(r'^(alloc\d+) \(static: ([\w:]+), size: (\d+), align: \d+\) \{$', line)
+                if am:
+                    self._alloc = am.group(1); self.allocs[self._alloc] = (am.group(2), [], int(am.group(3))); continue
             if cur is None:
                 m = re.match(r'^(fn) (.+?)(\(((?:_\d+: .*)?)\) -> (.*)) \{$', line)
                 if not m:
@@ -528,7 +539,13 @@ class Engine:
         if am:
             key = 'alloc:' + am.group(1)
             if key not in self.const_cache:
-                self.const_cache[key] = RefV(Cell(self.ex.fresh(am.group(2), am.group(1))))
+                val = None
+                for mir in self.mirs:
+                    al = mir.allocs.get(am.group(1)) if st is None or True else None
+                    if al and al[2] == 32 and am.group(2).endswith('Pubkey') and len(al[1]) == 32 and all(re.fullmatch(r'[0-9a-f]{2}', b) for b in al[1]):
+                        bs_ = bytes(int(b, 16) for b in al[1])
+                        val = IntV(z3.IntVal(0 if not any(bs_) else int.from_bytes(bs_, 'little') + (1 << 40)), 'Pubkey'); break
+                self.const_cache[key] = RefV(Cell(val if val is not None else self.ex.fresh(am.group(2), am.group(1))))
             return self.const_cache[key]
         if s == 'I80F48::ZERO' or s.endswith('I80F48::ZERO'): return IntV(z3.IntVal(0), I80)
         if s == 'I80F48::ONE' or s.endswith('I80F48::ONE'): return IntV(z3.IntVal(W), I80)
@@ -1083,6 +1100,42 @@ class Engine:
             inner = mm.group(1)
             r_ = self.model_call(st, f'<{inner} as PartialEq>::{mm.group(2)}', [a1, b1])
             if r_ is not None: return r_
+        if re.match(r'^<Vec<u8> as Index<(std::ops::)?RangeTo<usize>>>::index$', c):
+            v = self.deref_val(args[0])
+            if isinstance(v, StructV):
+                if '__d8' not in v.fields: v.fields['__d8'] = IntV(z3.Int(v.name + '.d8'), 'bytes')
+                if '__len' not in v.fields:
+                    ln = z3.Int(v.name + '.len'); self.ex.assumptions.append(z3.And(ln >= 0, ln <= 2000)); v.fields['__len'] = IntV(ln, 'usize')
+                need = 8
+                ok_ = v.fields['__len'].e >= need
+                if self.feasible(st.pc + [z3.Not(ok_)]): st.events.append(('may_panic', 'slice index out of range (data shorter than 8 bytes)', z3.And(st.pc + [z3.Not(ok_)])))
+                st.pc.append(ok_)
+                return RefV(Cell(v.fields['__d8']))
+        mm = re.match(r'^<&\[u8\] as PartialEq<\[u8; (\d+)\]>>::(eq|ne)$|^<\[u8\] as PartialEq<\[u8; (\d+)\]>>::(eq|ne)$', c)
+        if mm and len(args) == 2:
+            a_ = self.deref_val(args[0]); b_ = self.deref_val(args[1])
+            op_ = mm.group(2) or mm.group(4)
+            if isinstance(a_, IntV) and isinstance(b_, StructV):
+                items = [b_.fields.get(i) for i in range(len([k for k in b_.fields if isinstance(k, int)]))]
+                if items and all(isinstance(x, IntV) and z3.is_int_value(z3.simplify(x.e)) for x in items):
+                    cid = intern_bytes('bytes:' + ','.join(str(z3.simplify(x.e).as_long()) for x in items))
+                    e_ = a_.e == cid
+                    return BoolV(e_ if op_ == 'eq' else z3.Not(e_))
+        if re.match(r'^<Vec<(.*)> as Deref>::deref$', c):
+            v = self.deref_val(args[0])
+            if isinstance(v, StructV):
+                em = re.match(r'^(?:std::vec::)?Vec<(.*)>$', v.ty.strip())
+                if '__slice' not in v.fields:
+                    sl = self.ex.fresh(f'[{em.group(1)}]' if em else '[?]', v.name + '.slice')
+                    v.fields['__slice'] = Cell(sl)
+                return RefV(v.fields['__slice'])
+        mm = re.match(r'^core::slice::<impl \[(.*)\]>::get::<usize>$', c)
+        if mm and isinstance(args[1], IntV) and z3.is_int_value(z3.simplify(args[1].e)):
+            lst = args[0]; lv = self.deref_val(lst); k_ = z3.simplify(args[1].e).as_long()
+            if isinstance(lv, StructV) and '__len' in lv.fields and isinstance(lst, RefV):
+                if k_ not in lv.fields: lv.fields[k_] = self.ex.fresh(lv.fields.get('__elemty', mm.group(1)), f'{lv.name}[{k_}]')
+                d_ = z3.simplify(z3.If(lv.fields['__len'].e > k_, 1, 0))
+                return EnumV('Option', d_.as_long() if z3.is_int_value(d_) else d_, {1: {0: RefV(lst.cell, lst.path + (('i', k_),))}})
         # ---- Anchor / Pubkey / PDA models (keys are uninterpreted scalars; sha256 derivation is an uninterpreted function)
         if re.match(r'^<anchor_lang::prelude::(AccountLoader|Account|InterfaceAccount|Signer|Program|Interface|SystemAccount|UncheckedAccount|Sysvar)<.*> as AsRef<anchor_lang::prelude::AccountInfo<.*>>>::as_ref$', c):
             o = self.deref_val(args[0])
@@ -1254,6 +1307,9 @@ class Engine:
         if re.match(r'^<(\w+) as (Into|From)<(\w+)>>::(into|from)$', c):
             mm = re.match(r'^<(\w+) as (Into|From)<(\w+)>>::(into|from)$', c)
             if mm.group(1) == mm.group(3): return args[0]
+            src_, dst_ = (mm.group(1), mm.group(3)) if mm.group(2) == 'Into' else (mm.group(3), mm.group(1))
+            if src_ in INT_RANGES and dst_ in INT_RANGES and isinstance(args[0], IntV) and INT_RANGES[src_][0] >= INT_RANGES[dst_][0] and INT_RANGES[src_][1] <= INT_RANGES[dst_][1]:
+                return IntV(args[0].e, dst_)
         if re.match(r'^Option::<(.*)>::unwrap_or$', c):
             o = args[0]
             if isinstance(o.disc, int):
